@@ -584,6 +584,35 @@ def gen_exchange(rng):
     return case
 
 
+def lenient_chunked_end(raw: bytes):
+    """end offset of the first final response in `raw` when it is chunked and its chunk-size lines are only readable leniently
+    (trailing OWS / odd extensions, which h11 — hence the proxy — accepts and the strict reference reader does not); None if
+    that is not the situation.  Used only to shape the environment: nothing follows a complete response before the next request."""
+    pos = 0
+    while True:
+        h = re.search(rb"\r?\n\r?\n", raw[pos:])
+        if not h: return None
+        head = raw[pos:pos + h.end()]
+        m = re.match(rb"HTTP/[0-9]\.[0-9][ \t]+([0-9]{3})", head)
+        if not m: return None
+        pos += h.end()
+        if m.group(1)[:1] == b"1" and m.group(1) != b"101": continue        # interim: the final response follows
+        break
+    if not re.search(rb"(?im)^transfer-encoding[ \t]*:.*chunked[ \t]*\r?$", head): return None
+    while True:
+        e = raw.find(b"\r\n", pos)
+        if e < 0: return None
+        m = re.fullmatch(rb"([0-9A-Fa-f]{1,20})(;[^\n]*)?[ \t]*", raw[pos:e])
+        if not m: return None
+        n = int(m.group(1), 16)
+        pos = e + 2
+        if n == 0: break
+        if len(raw) < pos + n + 2 or raw[pos + n:pos + n + 2] != b"\r\n": return None
+        pos += n + 2
+    t = re.match(rb"(?:[^\r\n]+\r?\n)*\r?\n", raw[pos:])          # trailer section up to the blank line
+    return pos + t.end() if t else None
+
+
 def normalize_causality(case):
     """The origin's FIN is part of the schedule only where the protocol makes it part of the message (read-until-close
     body, truncated message): a server that silently drops a keep-alive connection races with the next request whatever the
@@ -606,6 +635,9 @@ def normalize_causality(case):
         data = raw
         if complete:
             data = raw[:lead + finals[0]["end"]]
+        elif not finals and p.stop is not None and p.stop[0] != "incomplete" and (k >= len(cm) or cm[k].upper() != b"HEAD"):
+            le = lenient_chunked_end(raw[lead:])
+            if le is not None: data = raw[:lead + le]
         open_ended = (finals[0]["framing"] == "eof") if finals else (p.stop is not None and p.stop[0] == "incomplete")
         if k >= len(cm):
             # the reference parser could not read the k-th request (e.g. two spaces in the request line, which mitmproxy
